@@ -40,13 +40,13 @@ Lemma update_forms_rerender_stmt : forall o m z max_size request_payload w m',
   to_wire m' o max_size request_payload false 0 = Ok w.
 Proof. intros o m z ms rp w m' OO. exact (update_rerender_lemma o OO m z ms rp w m'). Qed.
 
-Lemma counts_exact_stmt : forall o m max_size request_payload w,
-  org_ok o -> WfMsg o m -> wf_tsig m -> to_wire m o max_size request_payload false 0 = Ok w ->
+Lemma counts_exact_stmt : forall o pad m max_size request_payload w,
+  org_ok o -> WfMsg o m -> wf_tsig m -> to_wire m o max_size request_payload false pad = Ok w ->
   exists body,
     w = hdr_bytes (mid m) (mflags m) (zlen (mq m)) (rr_count (man m)) (rr_count (mau m))
                   (rr_count (mad m) + opt_count (mopt m) + opt_count (mtsig m)) ++ body /\
     exists m', from_wire w o po0 = Ok m'.
-Proof. intros o m ms rp w OO. exact (counts_exact_lemma o OO m ms rp w). Qed.
+Proof. intros o pad m ms rp w OO. exact (counts_exact_pad_lemma o OO pad m ms rp w). Qed.
 
 Lemma name_write_sound_stmt : forall o n c file t file' t',
   org_ok o -> TableSound file t -> name_wf o n -> name_to_wire n o c file t = Ok (file', t') ->
